@@ -161,20 +161,22 @@ def _case(rng: Rng, tier, entry=None, force=None):
             case["degree"] = rng.choice([0, 1, 1, 2])
     elif entry.startswith("DenseFunctionalData"):
         cov = entry.endswith("covariance")
-        m = rng.choice([8, 11, 15] if cov else [9, 13, 17, 25])
+        m = rng.choice([7, 8, 10] if cov else [9, 13, 17, 25])
         g = _grid01(rng, m)
         nobs = rng.randint(3, 5) if (cov or entry.endswith("mean")) else rng.randint(1, 3)
         case["x"] = [rs(t) for t in _scale_pts(dom, g)]
         case["X"] = [[rs(t) for t in _curve(rng, g, ykind if k == 0 else rng.choice(["smooth", "rand"]))] for k in range(nobs)]
-        Q = _queries(rng, g, k=rng.randint(4, 6) if cov else None)
+        Q = _queries(rng, g, k=rng.randint(4, 5) if cov else None)
         case["Q"] = [rs(t) for t in _scale_pts(dom, Q)]
         case["variants"] = [[nm, [rs(t) for t in _scale_pts(dom, v)]] for nm, v in _variants(rng, Q, g)]
+        if cov:
+            case["variants"] = case["variants"][:5]
         if cov and method == "LP":
             case["degree"] = rng.choice([1, 2])
             case["hu"] = rs(rng.choice([Fraction(1, 2), Fraction(3, 4), Fraction(1)]))
     else:  # irregular
         cov = entry.endswith("covariance")
-        m = rng.choice([9, 12, 15] if cov else [11, 15, 21])
+        m = rng.choice([8, 9, 10] if cov else [11, 15, 21])
         g = _grid01(rng, m)
         nobs = rng.randint(3, 5) if cov else rng.randint(2, 4)
         obs = []
@@ -186,12 +188,16 @@ def _case(rng: Rng, tier, entry=None, force=None):
             gi = [g[i] for i in idx]
             obs.append(dict(t=[rs(t) for t in _scale_pts(dom, gi)], y=[rs(t) for t in _curve(rng, gi, ykind if k == 0 else "smooth")]))
         case["obs"] = obs
-        Q = _queries(rng, g, k=rng.randint(4, 6) if cov else None)
+        Q = _queries(rng, g, k=rng.randint(4, 5) if cov else None)
         case["Q"] = [rs(t) for t in _scale_pts(dom, Q)]
         case["variants"] = [[nm, [rs(t) for t in _scale_pts(dom, v)]] for nm, v in _variants(rng, Q, g)]
+        if cov:
+            case["variants"] = case["variants"][:5]
         if cov and method == "LP":
             case["degree"] = rng.choice([1, 2])
             case["hu"] = rs(rng.choice([Fraction(3, 4), Fraction(1)]))
+    if method == "LP" and not entry.startswith(("PSplines", "LocalPolynomial")) and not two_d and dom == "unit" and rng.random() < 0.5:
+        case["default_bw"] = True  # the entry point's own default bandwidth (a function of the DATA, not of the query set)
     return case
 
 
@@ -251,7 +257,7 @@ class _Recorder:
                 dmin = kw.get("domain_min", [None] * len(xs))
                 dmax = kw.get("domain_max", [None] * len(xs))
                 dom = [(float(np.min(a)) if lo is None else float(lo), float(np.max(a)) if hi is None else float(hi)) for a, lo, hi in zip(xs, dmin, dmax)]
-                log.append(dict(kind="ps", beta=np.array(self.beta_hat, dtype=float), dom=dom, nseg=[int(v) for v in np.atleast_1d(self.n_segments)],
+                log.append(dict(kind="ps", penalty=[float(v) for v in np.atleast_1d(penalty)] if penalty is not None else None, beta=np.array(self.beta_hat, dtype=float), dom=dom, nseg=[int(v) for v in np.atleast_1d(self.n_segments)],
                                 deg=[int(v) for v in np.atleast_1d(self.degree)]))
                 return r
 
@@ -277,7 +283,7 @@ class _Recorder:
 
 
 def _fit_rec(r):
-    return dict(beta=r["beta"].tolist(), dom=r["dom"], nseg=r["nseg"], deg=r["deg"])
+    return dict(beta=r["beta"].tolist(), dom=r["dom"], nseg=r["nseg"], deg=r["deg"], penalty=r.get("penalty"))
 
 
 def _lp_rec(r):
@@ -336,6 +342,13 @@ def run_impl(case):
             out["y_hat"] = np.asarray(ps.y_hat).tolist()
             out["at_x"] = np.asarray(ps.predict(x)).tolist()
             out["none"] = np.asarray(ps.predict()).tolist()
+            # history on one object: refit on other data (other domain, no explicit fit domain), compare with a fresh object
+            x2, y2, q2 = 2.0 * x + 3.0, y[::-1].copy(), 2.0 * _np(case["Q"]) + 3.0
+            ps.fit(y2, x2, penalty=(float(F(case["pen"][0])),))
+            out["hist_same"] = np.asarray(ps.predict(q2)).tolist()
+            fresh = PSplines(n_segments=case["nseg"][0], degree=case["deg"][0])
+            fresh.fit(y2, x2, penalty=(float(F(case["pen"][0])),))
+            out["hist_fresh"] = np.asarray(fresh.predict(q2)).tolist()
         else:
             x1, x2 = _np(case["x"]), _np(case["x2"])
             Y = np.array([[float(F(t)) for t in r] for r in case["Y"][0]])
@@ -383,20 +396,21 @@ def run_impl(case):
         val = IrregularValues({i: _np(o["y"]) for i, o in enumerate(case["obs"])})
         fd = IrregularFunctionalData(arg, val)
     what = entry.split(".")[1]
+    bw = {} if case.get("default_bw") or method != "LP" else dict(bandwidth=h)
 
     def call(points):
         if what == "smooth":
             if method == "PS":
                 pen = [float(F(p)) for p in case["pen"][:dim]]
                 return fd.smooth(points=points, method="PS", penalty=pen, **kwargs)
-            return fd.smooth(points=points, method="LP", bandwidth=h, kernel_name=case["kernel"], degree=case["degree"])
+            return fd.smooth(points=points, method="LP", kernel_name=case["kernel"], degree=case["degree"], **bw)
         if what == "mean":
             if method == "PS":
-                return fd.mean(points=points, method_smoothing="PS", **kwargs)
-            return fd.mean(points=points, method_smoothing="LP", bandwidth=h, kernel_name=case["kernel"], degree=case["degree"])
+                return fd.mean(points=points, method_smoothing="PS", penalty=[float(F(p)) for p in case["pen"][:dim]], **kwargs)
+            return fd.mean(points=points, method_smoothing="LP", kernel_name=case["kernel"], degree=case["degree"], **bw)
         if method == "PS":
             return fd.covariance(points=points, method_smoothing="PS", n_segments=case["nseg"][0], degree=case["deg"][0], penalty=tuple(float(F(p)) for p in case["pen"]))
-        return fd.covariance(points=points, method_smoothing="LP", bandwidth=h, degree=case["degree"], kernel_name=case["kernel"])
+        return fd.covariance(points=points, method_smoothing="LP", degree=case["degree"], kernel_name=case["kernel"], **bw)
 
     with _Recorder() as rec:
         for nm, p1, p2 in calls:
@@ -417,7 +431,12 @@ def run_impl(case):
                 elif what == "mean":
                     lps = lps[-1:]
                 c["lps"] = [_lp_rec(r) for r in lps]
+            c["seen"] = [dict(nseg=r["nseg"], deg=r["deg"], penalty=r.get("penalty")) if r["kind"] == "ps" else dict(kernel=r["kernel"], h=r["h"], degree=r["degree"])
+                         for r in (fits if method == "PS" else lps)]
             out["calls"].append(c)
+        # history on one object: the base query set again, after all the other calls
+        out["repeat"] = np.asarray(call(_dargs(calls[0][1], calls[0][2])).values).tolist()
+        rec.take()
         # evaluating at the original sampling points returns the fitted curve
         if what in ("smooth", "mean") and entry.startswith("DenseFunctionalData"):
             out["none"] = np.asarray(call(None).values).tolist()
@@ -470,22 +489,50 @@ def _flat(case, call_idx, vals):
     return out
 
 
+def _default_bandwidth(case):
+    """n^(-1/5) with n the number of sampling points of the DATA (as documented by the entry points)."""
+    what = case["entry"].split(".")[1]
+    if case["entry"].startswith("DenseFunctionalData"):
+        m = len(case["x"])
+        return float((m * m) ** (-1 / 5)) if what == "covariance" else float(np.prod([m]) ** (-1 / 5))
+    sizes = [len(o["t"]) for o in case["obs"]]
+    if what == "covariance":
+        m = len(sorted(set(t for o in case["obs"] for t in o["t"])))
+        return float(np.prod((m, m)) ** (-1 / 5))
+    return float(np.mean(sizes) ** (-1 / 5))
+
+
+def _requested(case):
+    """The smoothing options the case asked for (what the model uses; the data / coefficients are the captured ones)."""
+    what = case["entry"].split(".")[1]
+    if case["method"] == "LP":
+        _, sc = DOMAINS[case["dom"]]
+        if case.get("default_bw"):
+            return dict(kernel=case["kernel"], h=F(_default_bandwidth(case)), degree=case["degree"])
+        return dict(kernel=case["kernel"], h=F(case["hu"]) * sc, degree=case["degree"])
+    if what == "covariance":
+        return dict(nseg=[case["nseg"][0]] * 2, deg=[case["deg"][0]] * 2, penalty=[float(F(p)) for p in case["pen"]])
+    d = case["dim"]
+    return dict(nseg=case["nseg"][:d], deg=case["deg"][:d], penalty=[float(F(p)) for p in case["pen"][:d]])
+
+
 def model_lines(case, impl):
     if "__crash__" in impl:
         return []
     J = ",".join
     lines = []
     what = case["entry"].split(".")[1]
+    req = _requested(case)
     for ci, (c, (nm, p1, p2)) in enumerate(zip(impl["calls"], _calls(case))):
         if "fits" in c:
             for f in c["fits"]:
                 if len(f["dom"]) == 1:
                     (a, b), = f["dom"]
-                    lines.append(f"ps1 {_fr(a)} {_fr(b)} {f['nseg'][0]} {f['deg'][0]} {J(_fr(v) for v in f['beta'])} {J(p1)}")
+                    lines.append(f"ps1 {_fr(a)} {_fr(b)} {req['nseg'][0]} {req['deg'][0]} {J(_fr(v) for v in f['beta'])} {J(p1)}")
                 else:
                     (a1, b1), (a2, b2) = f["dom"]
                     B = ";".join(J(_fr(v) for v in row) for row in f["beta"])
-                    head = f"{_fr(a1)} {_fr(b1)} {f['nseg'][0]} {f['deg'][0]} {_fr(a2)} {_fr(b2)} {f['nseg'][1]} {f['deg'][1]} {B}"
+                    head = f"{_fr(a1)} {_fr(b1)} {req['nseg'][0]} {req['deg'][0]} {_fr(a2)} {_fr(b2)} {req['nseg'][1]} {req['deg'][1]} {B}"
                     if what == "covariance":
                         lines.append(f"cov {head} {J(p1)}")
                     else:
@@ -494,7 +541,7 @@ def model_lines(case, impl):
             for r in c["lps"]:
                 x = np.asarray(r["x"], dtype=float)
                 if x.ndim == 1:
-                    lines.append(f"lp1 {r['kernel']} {_fr(r['h'])} {r['degree']} {J(_fr(v) for v in x)} {J(_fr(v) for v in r['y'])} {J(p1)}")
+                    lines.append(f"lp1 {req['kernel']} {rs(req['h'])} {req['degree']} {J(_fr(v) for v in x)} {J(_fr(v) for v in r['y'])} {J(p1)}")
                 else:
                     if what == "covariance":
                         q1 = [a for a in p1 for _ in p1]
@@ -502,7 +549,7 @@ def model_lines(case, impl):
                     else:
                         q1 = [a for a in p1 for _ in p2]
                         q2 = [b for _ in p1 for b in p2]
-                    lines.append(f"lp2 {r['kernel']} {_fr(r['h'])} {r['degree']} {J(_fr(v) for v in x[:, 0])} {J(_fr(v) for v in x[:, 1])} {J(_fr(v) for v in r['y'])} {J(q1)} {J(q2)}")
+                    lines.append(f"lp2 {req['kernel']} {rs(req['h'])} {req['degree']} {J(_fr(v) for v in x[:, 0])} {J(_fr(v) for v in x[:, 1])} {J(_fr(v) for v in r['y'])} {J(q1)} {J(q2)}")
     return lines
 
 
@@ -527,6 +574,7 @@ def compare(case, impl, model):
     if "__crash__" in impl:
         return [f"implementation crashed: {impl['__crash__']} {impl.get('msg')}"]
     outs = list(model["outs"])
+    req = _requested(case)
     ds = []
     what = case["entry"].split(".")[1]
     k = 0
@@ -554,7 +602,7 @@ def compare(case, impl, model):
                     ss = [Fraction(t) for r in s.split(";") for t in r.split(",")]
                 chunk = flat[fi * per : (fi + 1) * per]
                 for (loc, fv), q, sc in zip(chunk, qs, ss):
-                    tol = _ps_tol(f, float(sc))
+                    tol = _ps_tol(dict(dom=f["dom"], nseg=req["nseg"], deg=req["deg"]), float(sc))
                     dev = abs(fv - float(q)) if np.isfinite(fv) else float("inf")
                     worst = max(worst, dev / tol if tol > 0 else 0)
                     if not dev <= tol:
@@ -581,7 +629,7 @@ def compare(case, impl, model):
                     qq = np.array([float(F(loc[1])) for loc, _ in chunk])
                 else:
                     qq = np.array([[float(F(loc[1])), float(F(loc[2]))] for loc, _ in chunk])
-                _, cond, npos = c06.reference_wls(x, y, qq, r["h"], r["kernel"], r["degree"])
+                _, cond, npos = c06.reference_wls(x, y, qq, float(req["h"]), req["kernel"], req["degree"])
                 sc = max(float(np.max(np.abs(y))) if y.size else 0.0, 1e-300)
                 for (loc, fv), e, cd in zip(chunk, est, cond):
                     if not np.isfinite(fv):
@@ -633,6 +681,28 @@ def oracle(case, impl):
                 bad(clause, f"[{case['method']}] value at {loc} is {base[loc]!r} when requested within Q={calls[0][1]}"
                             f"{' x ' + str(calls[0][2]) if calls[0][2] else ''} but {v!r} within '{nm}'={calls[ci][1]}{' x ' + str(calls[ci][2]) if calls[ci][2] else ''}",
                     ["query_range_differs"] if not same_range else ["same_query_range"])
+    # the smoothing options of the call reach the smoother (non-default values)
+    req = _requested(case)
+    for c in impl["calls"]:
+        for seen in c.get("seen", []):
+            if case["method"] == "PS":
+                if seen["nseg"] != list(req["nseg"]) or seen["deg"] != list(req["deg"]):
+                    bad("options_forwarded", f"requested n_segments/degree {req['nseg']}/{req['deg']} but the smoother was fitted with {seen['nseg']}/{seen['deg']}")
+                if seen["penalty"] is None or [float(v) for v in seen["penalty"]] != [float(v) for v in req["penalty"]]:
+                    bad("options_forwarded", f"requested penalty {req['penalty']} but the smoother was fitted with {seen['penalty']}")
+            else:
+                if seen["kernel"] != req["kernel"] or seen["degree"] != req["degree"] or seen["h"] != float(req["h"]):
+                    bad("options_forwarded", f"requested kernel/bandwidth/degree {req['kernel']}/{float(req['h'])}/{req['degree']} but the smoother used {seen['kernel']}/{seen['h']}/{seen['degree']}")
+    # histories on one object
+    if "repeat" in impl:
+        a, b = np.asarray(impl["repeat"], dtype=float).ravel(), np.asarray(impl["calls"][0]["vals"], dtype=float).ravel()
+        if a.shape != b.shape or not np.allclose(a, b, rtol=0, atol=tol):
+            bad("history_independent", "the same query set gives another result after other query sets were requested on the same object")
+    if "hist_same" in impl:
+        a, b = np.asarray(impl["hist_same"], dtype=float), np.asarray(impl["hist_fresh"], dtype=float)
+        if a.shape != b.shape or not np.allclose(a, b, rtol=0, atol=1e-9 * max(1.0, float(np.max(np.abs(b))))):
+            i = int(np.argmax(np.abs(a - b)))
+            bad("history_independent", f"a PSplines object refitted on other data predicts {a[i]!r}, a fresh object {b[i]!r} (stale state from the first fit)")
     # evaluation at the original sampling points returns the fitted curve
     if "at_x" in impl:
         a = np.asarray(impl["at_x"], dtype=float).ravel()
@@ -661,4 +731,6 @@ def classify(case, impl):
         tags.append("queryset:" + v[0].split("x")[0])
     if "fit_domain" in case:
         tags.append("explicit-fit-domain")
+    if case.get("default_bw"):
+        tags.append("default-bandwidth")
     return tags
